@@ -36,6 +36,8 @@ def strategy():
         st.just({"c": "fetchall"}),
         # a non-PEEK body fetch of the messages planted at set-up (sets \Seen, rewrites .mh_sequences when done)
         st.just({"c": "fetchbody"}), st.just({"c": "fetchbody"}),
+        # a UID COPY into the other mailbox (its COPYUID must name the copies, also when an MH agent delivers there meanwhile)
+        st.builds(lambda a: {"c": "copy", "i": a}, st.integers(1, NMSG)),
         # a STORE by sequence number with a fresh marker keyword: which message did the number denote?
         st.builds(lambda a, sil: {"c": "storeseq", "i": a, "silent": sil}, st.integers(1, NMSG), st.booleans()),
         st.builds(lambda a, sil: {"c": "storeseq", "i": a, "silent": sil}, st.integers(1, NMSG), st.booleans()),
@@ -44,12 +46,12 @@ def strategy():
         {
             "kind": st.just("concurrent"),
             "rseed": st.integers(0, 2**16),
-            "deleted": st.lists(st.integers(1, NMSG), min_size=1, max_size=4, unique=True),
+            "deleted": st.lists(st.integers(1, NMSG), min_size=0, max_size=4, unique=True),
             "sessions": st.lists(st.lists(cmd, min_size=1, max_size=4), min_size=2, max_size=3),
             "offsets": st.lists(st.integers(0, 6), min_size=3, max_size=3),
             "sched": st.lists(st.integers(0, 4), min_size=0, max_size=60),
             # an MH agent delivering into the mailbox while the commands are in flight: [offset, how many] ...
-            "deliveries": st.lists(st.tuples(st.integers(0, 12), st.integers(1, 2)), min_size=0, max_size=2),
+            "deliveries": st.lists(st.tuples(st.integers(0, 12), st.integers(1, 2), st.sampled_from(["mb", "mb", "other"])), min_size=0, max_size=2),
             "slow": st.booleans(),
         }
     )
@@ -72,7 +74,21 @@ def strategy():
             "slow": draw(st.booleans()),
         }
 
-    return st.one_of(general, general, focused())
+    # a second focused shape: nothing is \Deleted, one session's multi-message FETCH is still going out to a
+    # client that reads slowly while another session MOVEs a message away (seeded/C01-4: the expunge phase of
+    # MOVE queued as a plain EXPUNGE, which is admitted alongside other commands when nothing is \Deleted)
+    @st.composite
+    def move_under_fetch(draw):
+        return {
+            "kind": "concurrent", "rseed": draw(st.integers(0, 2**16)), "deleted": [],
+            "sessions": [[draw(st.sampled_from([{"c": "fetchall"}, {"c": "fetchbody"}]))] + draw(st.lists(cmd, max_size=1)),
+                         [{"c": "move", "i": draw(st.integers(1, NMSG - 1))}] + draw(st.lists(cmd, max_size=1))],
+            "offsets": [draw(st.integers(0, 2)), draw(st.integers(0, 3)), 0],
+            "sched": draw(st.lists(st.integers(0, 4), min_size=0, max_size=40)),
+            "deliveries": [], "slow": True,
+        }
+
+    return st.one_of(general, general, general, focused(), move_under_fetch())
 
 
 class View:
@@ -159,6 +175,7 @@ def execute(trace, prop: str = "C01") -> CaseResult:
     names = ["a", "b", "c"][: len(trace["sessions"])]
     overlap = [False]
     nmark = [0]
+    copies = []  # (source uid, destination uid) pairs claimed by COPYUID codes
     inflight = {}
     transcript = []
 
@@ -187,6 +204,8 @@ def execute(trace, prop: str = "C01") -> CaseResult:
                 line = b"APPEND mb {%d}\r\n%s" % (len(m), m)
             elif c == "uidfetch":
                 line = b"UID FETCH %d (UID FLAGS BODY.PEEK[HEADER.FIELDS (X-VF-Tag)])" % cmd["i"]
+            elif c == "copy":
+                line = b"UID COPY %d other" % cmd["i"]
             elif c == "fetchbody":
                 line = b"UID FETCH 1:%d (UID BODY[TEXT])" % NMSG
             elif c == "storeseq":
@@ -211,6 +230,20 @@ def execute(trace, prop: str = "C01") -> CaseResult:
                 return
             # a FETCH 1:* that was refused (pending expunges) is fine; replay whatever came
             view.catch_up(s, r.end, own_cmd="fetchall" if c in ("fetchall", "storeseq") else None, own_start=r.start)
+            if c in ("copy", "move") and r.ok:
+                import re as _re2
+
+                mcu = _re2.search(rb"\[COPYUID (\d+) ([0-9:,]+) ([0-9:,]+)\]", bytes(r.raw))
+                if mcu:
+                    from .. import wire as _w2
+
+                    try:
+                        su, du = _w2.parse_uid_set(mcu.group(2)), _w2.parse_uid_set(mcu.group(3))
+                        copies.extend(zip(su, du))
+                        if len(su) != len(du):
+                            v("C02.copyuid.shape", f"session {n}: {line.decode()} -> COPYUID {mcu.group(2).decode()} {mcu.group(3).decode()}: different lengths", "copyuid")
+                    except Exception:
+                        pass
             if c == "uidfetch" and r.ok:
                 import re as _re
 
@@ -225,6 +258,7 @@ def execute(trace, prop: str = "C01") -> CaseResult:
                     elif mt and u in tag_of and mt.group(1).decode() != tag_of[u]:
                         v("C03.uid.other-message", f"session {n}: 'UID FETCH {u}' returned the content of {mt.group(1).decode()}; uid {u} is {tag_of[u]}", "uidfetch")
             if c == "storeseq" and r.ok and s.alive:
+                cells_after_store = len(view.cells)  # (the UID SEARCH below may deliver further EXPUNGEs)
                 r2 = await s.cmd(b"UID SEARCH KEYWORD " + marker, limit=150)
                 view.catch_up(s, r2.end)
                 from .. import wire as _w
@@ -235,10 +269,10 @@ def execute(trace, prop: str = "C01") -> CaseResult:
                 want = snapshot[cmd["i"] - 1] if cmd["i"] <= len(snapshot) else None
                 if got and want is not None and got != {want}:
                     v("C01.store.wrong-message", f"session {n}: 'STORE {cmd['i']} +FLAGS{'.SILENT' if cmd['silent'] else ''}' was accepted; cell {cmd['i']} of its view {snapshot} is uid {want}, the flag landed on uids {sorted(got)}", "store")
-                elif got and want is None and cmd["i"] > len(snapshot) and cmd["i"] > len(view.cells):
+                elif got and want is None and cmd["i"] > len(snapshot) and cmd["i"] > cells_after_store:
                     # (a number beyond the view at send time is fine if the EXISTS that arrived with the
                     #  reply made it valid: the server resolves the number when it executes the command)
-                    v("C01.store.out-of-view", f"session {n}: 'STORE {cmd['i']}' accepted although its view holds {len(view.cells)} messages; flag landed on {sorted(got)}", "store")
+                    v("C01.store.out-of-view", f"session {n}: 'STORE {cmd['i']}' accepted although its view holds {cells_after_store} messages; flag landed on {sorted(got)}", "store")
 
     async def main():
         import asyncio
@@ -269,12 +303,12 @@ def execute(trace, prop: str = "C01") -> CaseResult:
                 sess[n_][0].writer.slow = sched.next  # clients that read slowly: drain() is a scheduled completion too
         tasks = [asyncio.ensure_future(run_session(n, sess[n][0], sess[n][1], trace["sessions"][i], trace["offsets"][i])) for i, n in enumerate(names)]
 
-        async def deliver_later(off, k, idx):
+        async def deliver_later(off, k, idx, target="mb"):
             await asyncio.sleep(off * 0.002)
-            w.deliver("mb", [tagged_message(f"dl{idx}x{j}") for j in range(k)])
-            res.labels.append("delivery-in-flight")
+            w.deliver(target, [tagged_message(f"dl{idx}x{j}") for j in range(k)])
+            res.labels.append("delivery-in-flight" if target == "mb" else "delivery-into-destination")
 
-        tasks += [asyncio.ensure_future(deliver_later(off, k, idx)) for idx, (off, k) in enumerate(trace.get("deliveries", []))]
+        tasks += [asyncio.ensure_future(deliver_later(d_[0], d_[1], idx, d_[2] if len(d_) > 2 else "mb")) for idx, d_ in enumerate(trace.get("deliveries", []))]
         done, pending = await asyncio.wait(tasks, timeout=400)
         for t in pending:
             t.cancel()
@@ -302,6 +336,28 @@ def execute(trace, prop: str = "C01") -> CaseResult:
                 pass
             else:
                 v("C01.sync.refused", f"session {n}: FETCH 1:* after two NOOPs answered {r.status} although its view holds {len(view.cells)} messages", "sync")
+
+    async def c02_end():
+        # C02/C05: every (source uid, destination uid) pair a COPYUID code claimed names a copy of that message
+        if prop != "C02" or not copies:
+            return
+        import re as _re
+
+        await w.settle(25)
+        o = w.session("o8")
+        r = await o.cmd(b"EXAMINE other")
+        if not r.ok:
+            return
+        r = await o.cmd(b"FETCH 1:* (UID BODY.PEEK[HEADER.FIELDS (X-VF-Tag)])")
+        at = {}
+        for seq, items in r.fetches():
+            h = items.get("BODY[HEADER.FIELDS (X-VF-TAG)]")
+            mt = _re.search(rb"X-VF-Tag:\s*(\S+)", bytes(h or b""), _re.I)
+            if mt and "UID" in items:
+                at[int(items["UID"])] = mt.group(1).decode()
+        for su, du in copies:
+            if su in tag_of and at.get(du) != tag_of[su]:
+                v("C02.copyuid.wrong-message", f"a COPYUID code says uid {su} ({tag_of[su]}) of mb became uid {du} of other; uid {du} of other is {at.get(du)!r} (other holds {sorted(at.items())})", "copyuid")
 
     async def c13_end():
         # C13: a message an MH agent delivered (in `unseen`) while commands were in flight, and that no
@@ -332,6 +388,7 @@ def execute(trace, prop: str = "C01") -> CaseResult:
         w.run(main(), budget=1_500_000)
         if res.blocked is None:
             w.run(c13_end(), budget=500_000)
+            w.run(c02_end(), budget=500_000)
     except Hang as e:
         res.blocked = "C10"
         res.labels.append(f"hang:{str(e)[:40]}")
